@@ -169,6 +169,25 @@ h!(c16_writer_delta_guard, 6, {
     core::mem::forget((w, r));
 });
 
+//@ prop=C16 tier=quick cost=40 fns="muxer::mp4::Mp4Writer::write_audio_sample" bound="one queued Opus sample, second valid packet at any u64 pts" unwind=6
+h!(c16_writer_audio_delta_guard, 6, {
+    let p0: u64 = kani::any();
+    let mut w = mp4h::writer_with_state::<NullSink, 0, 1>(
+        NullSink, VideoCodec::Vp9, [], Some(Mp4AudioTrack { sample_rate: 48000, channels: 2, codec: AudioCodec::Opus }),
+        [mp4h::mk_sample(p0, p0, data(2), false, None)], None, None, Some(p0), None, None, false, 0);
+    let p1: u64 = kani::any();
+    let r = w.write_audio_sample(p1, &[0x08u8, 0x01]);
+    if r.is_ok() {
+        let s0 = mp4h::audio_sample_digest(&w, 0).unwrap();
+        assert!(s0.duration.unwrap() as u128 == p1 as u128 - p0 as u128, "stored 32-bit audio duration is the exact gap");
+        assert!(mp4h::writer_digest(&w).audio_last_delta.unwrap() as u128 == p1 as u128 - p0 as u128, "remembered last delta is the exact gap");
+    } else {
+        kani::cover!(p1 > p0, "audio gap beyond 32 bits is reported as an error");
+    }
+    kani::cover!(r.is_ok(), "accepted");
+    core::mem::forget((w, r));
+});
+
 // ---- fragmented trun: duration (u64 -> u32) and composition offset (i64 -> i32) --
 //@ prop=C16 tier=quick cost=200 fns="fragmented::build_trun" bound="2 samples (1 byte each), all u64 dts with dts0<=dts1 < 2^63, pts < 2^63" unwind=6 timeout=900
 h!(c16_trun_fields, 6, {
